@@ -201,7 +201,14 @@ pub fn run(ctx: &Ctx) -> Rep {
     // (w then c) and (c then w) are adjacent. thorough: all 2^32 words x 52 cards in the fast leg (4.5e11 calls,
     // ~6.5 min), every 8th block in the checked leg; quick: a seeded 1-in-64 of the blocks (1-in-512 checked).
     let cards = model::words52();
-    let hist_stride: u32 = if ctx.leg == "checked" { ctx.pick(1, 512, 8) as u32 } else { ctx.pick(1, 64, 1) as u32 };
+    // (escalated, i.e. the crate owns static state: every 8th block - shared state makes each call ~50x slower)
+    let hist_stride: u32 = if ctx.escalate && !ctx.smoke() {
+        if ctx.leg == "checked" { 64 } else { 8 }
+    } else if ctx.leg == "checked" {
+        ctx.pick(1, 512, 8) as u32
+    } else {
+        ctx.pick(1, 64, 1) as u32
+    };
     let hist_off: u32 = (ctx.seed % hist_stride as u64) as u32;
     let hblocks: Vec<u32> = blocks.iter().copied().filter(|b| ctx.smoke() || b % hist_stride == hist_off).collect();
     let sh = par_run(ctx, hblocks.len(), mk, |st, bi| {
